@@ -601,8 +601,6 @@ func ApplyParams(infos []*linter.CheckerInfo, params map[string]map[string]inter
 	}
 }
 
-
-
 // ---------------------------------------------------------------------------------------------
 // real binaries
 
